@@ -284,7 +284,7 @@ func playVariant(data []byte, expAll [][]expectEv, ns []int, pat string, withMet
 		return
 	}
 	var err error
-	viaPlay := !only && !twice && !both && len(mp) == 1 && mp[-1] == "A" && len(ns)%2 == 1
+	viaPlay := !only && !twice && !both && len(mp) == 1 && mp[-1] == "A" && (len(ns)%2 == 1 || strings.Contains(pat, "@format0-header"))
 	c := engine.Catch(func() {
 		if viaPlay {
 			// Play(out) is documented as MultiPlay with the port as default; it opens the port
@@ -444,6 +444,9 @@ func allSelections(ntr int) [][]int {
 		}
 		out = append(out, s)
 	}
+	// selections that name a track the file does not have: alone (nothing is
+	// selected, nothing may be played) and together with an existing one
+	out = append(out, []int{ntr}, []int{0, ntr + 3})
 	return out
 }
 
@@ -491,6 +494,15 @@ func space(job int) {
 					for _, sel := range sels {
 						for _, mp := range maps {
 							play(data, exp, ns, pat, wm, sel, mp)
+						}
+					}
+					if ntr >= 2 && pi == 0 {
+						// the same chunks under a header that says format 0 (the reader
+						// takes the tracks as they come): still merged by time
+						d0 := append([]byte(nil), data...)
+						d0[8], d0[9] = 0, 0
+						for _, mp := range maps {
+							play(d0, exp, ns, pat+"@format0-header", wm, nil, mp)
 						}
 					}
 				}
@@ -626,6 +638,8 @@ func main() {
 			manyTracks()
 			ctx.Finish("replay")
 		}
+		fmt0 := strings.Contains(pat, "@format0-header")
+		pat = strings.Replace(pat, "@format0-header", "", 1)
 		only, twice, both := strings.Contains(pat, "+only-filter"), strings.Contains(pat, "+second-playback"), strings.Contains(pat, "+only-two-types")
 		if i := strings.Index(pat, "+"); i >= 0 {
 			pat = pat[:i]
@@ -634,6 +648,10 @@ func main() {
 			tempoLayout = int(tl)
 		}
 		data, exp := build(ns, pat, m["with_meta"].(bool))
+		if fmt0 {
+			data[8], data[9] = 0, 0
+			pat += "@format0-header"
+		}
 		playVariant(data, exp, ns, pat, m["with_meta"].(bool), sel, mp, only, twice, both)
 		ctx.Finish("replay")
 	}
